@@ -6,6 +6,9 @@ package mint
 
 // Representation invariant of *Mint (DESIGN.md §8 C09), as far as the
 // sequential contracts need it.
+// Invariant of the proof tables: no Y is both pending and spent (assumed at
+// entry of the public operations, proved preserved by each of them).
+//@ macro dbinv() = (forall y Str :: !(db.pending[y] && db.spent[y]))
 //@ macro minv(m) = m.db != nil && m.lightningClient != nil && m.activeKeyset != nil && m.keysets != nil && m.logger != nil && m.publisher != nil
 
 //@ func (*Mint).TransactionFees
@@ -37,6 +40,8 @@ package mint
 //@   tags C01 C02
 //@   safety C06
 //@   requires minv(m)
+//@   requires dbinv()
+//@   ensures @dbinv [C01,C05] dbinv()
 //@   loop range(proofs) invariant 0 <= i && i <= len(proofs) && len(Ys) == len(proofs) && proofsAmount == sum.proof.amount(seq(proofs), i) % 18446744073709551616 && (forall j :: 0 <= j && j < i ==> Ys[j] == Yof(proofs[j].Secret))
 //@   loop range(blindedMessages) invariant 0 <= i && i <= len(blindedMessages) && len(B_s) == len(blindedMessages) && (forall j :: 0 <= j && j < i ==> B_s[j] == blindedMessages[j].B_)
 //@   ensures @noinflation [C02] err == nil ==> sum.sig.amount(seq(result), len(result)) + fee.tx(seq(proofs), mapkeys(m.keysets), mapvals(m.keysets), len(proofs)) <= sum.proof.amount(seq(proofs), len(proofs))
@@ -92,6 +97,7 @@ package mint
 //@   ensures @complete [C05] err == nil ==> (forall y Str :: old(db.pending)[y] && old(db.pendrow)[y].MeltQuoteId == quoteId ==> (exists j :: 0 <= j && j < len(result) && Yof(result[j].Secret) == y))
 //@   ensures @distinct [C05] err == nil ==> (forall i, j :: 0 <= i && i < j && j < len(result) ==> Yof(result[i].Secret) != Yof(result[j].Secret))
 //@   ensures @failkeeps [C05] err != nil ==> db.pending == old(db.pending)
+//@   ensures @errisfault [C06] err != nil ==> db.faults > old(db.faults)
 
 //@ func (*Mint).settleQuotesInternally
 //@   tags C02 C03 C05
@@ -112,6 +118,8 @@ package mint
 //@   tags C05
 //@   safety C06
 //@   requires minv(m)
+//@   requires dbinv()
+//@   ensures @dbinv [C01,C05] dbinv()
 //@   loop range(proofs) invariant 0 <= i && i <= len(proofs) && len(Ys) == len(proofs) && proofsAmount == sum.proof.amount(seq(proofs), i) % 18446744073709551616 && (forall j :: 0 <= j && j < i ==> Ys[j] == Yof(proofs[j].Secret))
 //@   calls (lightning.Client).SendPayment asserts @feelimit [C02] maxFee <= db.meltrow[meltTokensRequest.Quote].FeeReserve && request == db.meltrow[meltTokensRequest.Quote].InvoiceRequest
 //@   calls (lightning.Client).PayPartialAmount asserts @feelimit [C02] maxFee <= db.meltrow[meltTokensRequest.Quote].FeeReserve && request == db.meltrow[meltTokensRequest.Quote].InvoiceRequest && amountMsat == db.meltrow[meltTokensRequest.Quote].AmountMsat
@@ -120,9 +128,9 @@ package mint
 //@   calls (lightning.Client).PayPartialAmount asserts @lockedfirst [C01,C05,C07] (forall i :: 0 <= i && i < len(meltTokensRequest.Inputs) ==> db.pending[Yof(meltTokensRequest.Inputs[i].Secret)]) && db.meltrow[meltTokensRequest.Quote].State == nut05.Pending
 //@   ensures @states [C05] err == nil ==> result.State == nut05.Paid || result.State == nut05.Unpaid || result.State == nut05.Pending
 //@   ensures @stored [C05] err == nil ==> db.melt[meltTokensRequest.Quote] && db.meltrow[meltTokensRequest.Quote].State == result.State && db.meltrow[meltTokensRequest.Quote].Preimage == result.Preimage
-//@   ensures @paid [C05] err == nil && result.State == nut05.Paid && ln.npay == old(ln.npay) + 1 ==> (ln.payerr == nil && ln.pay.PaymentStatus == lightning.Succeeded && result.Preimage == ln.pay.Preimage) || (payfailed() && ln.nst == old(ln.nst) + 1 && ln.sterr == nil && ln.st.PaymentStatus == lightning.Succeeded && result.Preimage == ln.st.Preimage)
+//@   ensures @paid [C02,C05] err == nil && result.State == nut05.Paid && ln.npay == old(ln.npay) + 1 ==> (ln.payerr == nil && ln.pay.PaymentStatus == lightning.Succeeded && result.Preimage == ln.pay.Preimage) || (payfailed() && ln.nst == old(ln.nst) + 1 && ln.sterr == nil && ln.st.PaymentStatus == lightning.Succeeded && result.Preimage == ln.st.Preimage)
 //@   ensures @paidspent [C01,C05,C15] err == nil && result.State == nut05.Paid ==> (forall i :: 0 <= i && i < len(meltTokensRequest.Inputs) ==> db.spent[Yof(meltTokensRequest.Inputs[i].Secret)] && !db.pending[Yof(meltTokensRequest.Inputs[i].Secret)])
-//@   ensures @unpaid [C05] err == nil && result.State == nut05.Unpaid ==> ln.npay == old(ln.npay) + 1 && payfailed() && ln.nst == old(ln.nst) + 1 && (notfound(ln.sterr) || (ln.sterr == nil && ln.st.PaymentStatus == lightning.Failed))
+//@   ensures @unpaid [C01,C02,C05] err == nil && result.State == nut05.Unpaid ==> ln.npay == old(ln.npay) + 1 && payfailed() && ln.nst == old(ln.nst) + 1 && (notfound(ln.sterr) || (ln.sterr == nil && ln.st.PaymentStatus == lightning.Failed))
 //@   ensures @unpaidfree [C05] err == nil && result.State == nut05.Unpaid ==> (forall i :: 0 <= i && i < len(meltTokensRequest.Inputs) ==> !db.spent[Yof(meltTokensRequest.Inputs[i].Secret)] && !db.pending[Yof(meltTokensRequest.Inputs[i].Secret)])
 //@   ensures @pendinglocked [C01,C05] err == nil && result.State == nut05.Pending ==> (forall i :: 0 <= i && i < len(meltTokensRequest.Inputs) ==> db.pending[Yof(meltTokensRequest.Inputs[i].Secret)] && !db.spent[Yof(meltTokensRequest.Inputs[i].Secret)])
 //@   ensures @freshinputs [C01] err == nil ==> len(meltTokensRequest.Inputs) >= 1 && (forall i :: 0 <= i && i < len(meltTokensRequest.Inputs) ==> !old(db.spent)[Yof(meltTokensRequest.Inputs[i].Secret)] && !old(db.pending)[Yof(meltTokensRequest.Inputs[i].Secret)])
@@ -133,3 +141,47 @@ package mint
 //@   ensures @otherproofs [C01,C05] forall y Str :: (forall i :: 0 <= i && i < len(meltTokensRequest.Inputs) ==> Yof(meltTokensRequest.Inputs[i].Secret) != y) ==> db.pending[y] == old(db.pending)[y] && db.spent[y] == old(db.spent)[y]
 //@   ensures @atomic [C06] err != nil && db.faults == old(db.faults) && ln.qfaults == old(ln.qfaults) ==> db.pending == old(db.pending) && db.spent == old(db.spent) && db.meltrow == old(db.meltrow) && db.mqrow == old(db.mqrow) && ln.npay == old(ln.npay)
 //@   ensures @internal [C02,C03] err == nil && result.State == nut05.Paid && ln.npay == old(ln.npay) ==> (exists x Str :: old(db.mq)[x] && old(db.mqrow)[x].PaymentHash == old(db.meltrow)[meltTokensRequest.Quote].PaymentHash && db.mqrow[x].State == nut04.Paid)
+
+//@ macro quoteproofsspent(q) = (forall y Str :: old(db.pending)[y] && old(db.pendrow)[y].MeltQuoteId == q ==> db.spent[y] && !db.pending[y])
+//@ macro quoteproofsfree(q) = (forall y Str :: old(db.pending)[y] && old(db.pendrow)[y].MeltQuoteId == q ==> !db.pending[y] && db.spent[y] == old(db.spent)[y])
+
+//@ func (*Mint).GetMeltQuoteState
+//@   tags C05
+//@   safety C06
+//@   requires minv(m)
+//@   requires dbinv()
+//@   ensures @dbinv [C01,C05] dbinv()
+//@   ensures @notpending [C05] old(db.melt)[quoteId] && old(db.meltrow)[quoteId].State != nut05.Pending ==> ln.nst == old(ln.nst) && db.meltrow == old(db.meltrow) && db.pending == old(db.pending) && db.spent == old(db.spent) && (err == nil ==> result == db.meltrow[quoteId])
+//@   ensures @polled [C05] old(db.melt)[quoteId] && old(db.meltrow)[quoteId].State == nut05.Pending && db.faults == old(db.faults) ==> ln.nst == old(ln.nst) + 1
+//@   ensures @ambiguous [C01,C02,C05] ln.nst == old(ln.nst) + 1 && (ln.sterr != nil || ln.st.PaymentStatus == lightning.Pending) ==> db.meltrow == old(db.meltrow) && db.pending == old(db.pending) && db.spent == old(db.spent) && err == nil && result == db.meltrow[quoteId]
+//@   ensures @succeeded [C05,C15] ln.nst == old(ln.nst) + 1 && ln.sterr == nil && ln.st.PaymentStatus == lightning.Succeeded && err == nil ==> result.State == nut05.Paid && result.Preimage == ln.st.Preimage && db.meltrow[quoteId].State == nut05.Paid && db.meltrow[quoteId].Preimage == ln.st.Preimage && quoteproofsspent(quoteId)
+//@   ensures @failed [C05] ln.nst == old(ln.nst) + 1 && ln.sterr == nil && ln.st.PaymentStatus == lightning.Failed && err == nil ==> result.State == nut05.Unpaid && db.meltrow[quoteId].State == nut05.Unpaid && quoteproofsfree(quoteId)
+//@   ensures @adopts [C05] ln.nst == old(ln.nst) + 1 && ln.sterr == nil && (ln.st.PaymentStatus == lightning.Succeeded || ln.st.PaymentStatus == lightning.Failed) && db.faults == old(db.faults) ==> err == nil
+//@   ensures @otherquotes [C05] forall x Str :: x != quoteId ==> db.meltrow[x] == old(db.meltrow)[x]
+//@   ensures @otherproofs [C01,C05] forall y Str :: !(old(db.pending)[y] && old(db.pendrow)[y].MeltQuoteId == quoteId) ==> db.pending[y] == old(db.pending)[y] && db.spent[y] == old(db.spent)[y]
+//@   ensures @monotone [C01] forall y Str :: old(db.spent)[y] ==> db.spent[y]
+//@   ensures @result [C05] err == nil ==> result == db.meltrow[quoteId] && result.Id == quoteId
+
+//@ macro truestate(ps, y) = (db.spent[y] ==> ps.State == nut07.Spent && ps.Witness == db.spentrow[y].Witness) && (!db.spent[y] && db.pending[y] ==> ps.State == nut07.Pending && ps.Witness == db.pendrow[y].Witness) && (!db.spent[y] && !db.pending[y] ==> ps.State == nut07.Unspent && ps.Witness == "")
+
+//@ func (*Mint).ProofsStateCheck
+//@   tags C15
+//@   safety C06
+//@   requires minv(m)
+//@   requires dbinv()
+//@   loop range(pendingQuotes) invariant dbinv() && (forall y Str :: old(db.spent)[y] ==> db.spent[y]) && db.sig == old(db.sig)
+//@   loop range(Ys) invariant 0 <= i && i <= len(Ys) && len(proofStates) == len(Ys) && (forall j :: 0 <= j && j < i ==> proofStates[j].Y == Ys[j] && truestate(proofStates[j], Ys[j]))
+//@   ensures @len [C15] err == nil ==> len(result) == len(Ys)
+//@   ensures @truth [C15,C01,C05] err == nil ==> (forall i :: 0 <= i && i < len(Ys) ==> result[i].Y == Ys[i] && truestate(result[i], Ys[i]))
+//@   ensures @monotone [C01] forall y Str :: old(db.spent)[y] ==> db.spent[y]
+//@   ensures @dbinv [C01,C05] dbinv()
+
+//@ func (*Mint).RestoreSignatures
+//@   tags C15
+//@   safety C06
+//@   requires minv(m)
+//@   loop range(blindedMessages) invariant 0 <= i && i <= len(blindedMessages) && len(outputs) == len(signatures) && len(outputs) <= i && (forall j :: 0 <= j && j < len(outputs) ==> db.sig[outputs[j].B_] && signatures[j].Amount == db.sigrow[outputs[j].B_].Amount && signatures[j].C_ == db.sigrow[outputs[j].B_].C_ && signatures[j].Id == db.sigrow[outputs[j].B_].Id && signatures[j].DLEQ != nil && signatures[j].DLEQ.E == db.sigrow[outputs[j].B_].E && signatures[j].DLEQ.S == db.sigrow[outputs[j].B_].S && (exists k :: 0 <= k && k < i && outputs[j] == blindedMessages[k]))
+//@   ensures @paired [C15] err == nil ==> len(r0) == len(r1)
+//@   ensures @signedonly [C15] err == nil ==> (forall j :: 0 <= j && j < len(r0) ==> db.sig[r0[j].B_] && r1[j].Amount == db.sigrow[r0[j].B_].Amount && r1[j].C_ == db.sigrow[r0[j].B_].C_ && r1[j].Id == db.sigrow[r0[j].B_].Id && r1[j].DLEQ != nil && r1[j].DLEQ.E == db.sigrow[r0[j].B_].E && r1[j].DLEQ.S == db.sigrow[r0[j].B_].S)
+//@   ensures @fromrequest [C15] err == nil ==> (forall j :: 0 <= j && j < len(r0) ==> (exists k :: 0 <= k && k < len(blindedMessages) && r0[j] == blindedMessages[k]))
+//@   ensures @frame [C15] db.sig == old(db.sig) && db.sigrow == old(db.sigrow)
